@@ -166,8 +166,31 @@ func genC13(r *core.Rand, run int) *MuxScenario {
 	sc.Knobs.MaxRecv = r.Pick(256, 1024, 4096, 65536, 65536+100)
 	k := 2 + r.Intn(5)
 	faults := r.Chance(1, 3)
+	proxied := run%3 == 0
+	if proxied {
+		// proxied methods in the mix: TestService lives on a backend, the
+		// other services stay local; with faults on, either side of a proxied
+		// stream may fail first (backend status, backend kill, client abort)
+		sc.Local = []string{"larking.testpb.Files", "larking.testpb.ChatRoom"}
+		sc.Backends = []BackendSpec{{Tag: "b1", Services: []string{tsvc}}}
+		if sc.Knobs.MaxRecv < 4096 {
+			sc.Knobs.MaxRecv = 4096
+		}
+	}
 	for i := 0; i < k; i++ {
-		sc.Reqs = append(sc.Reqs, genMixedRequest(r, i+1, sc.Knobs.MaxRecv, faults))
+		sp := genMixedRequest(r, i+1, sc.Knobs.MaxRecv, faults)
+		if proxied && methods[sp.Method].Service == tsvc {
+			if sp.Proto == "ws" {
+				sp = genProxiedRequest(r, i+1, sc.Knobs.MaxRecv)
+			} else {
+				h := genProxiedRequest(r, i+1, sc.Knobs.MaxRecv)
+				sp = h
+				if !faults {
+					sp.Fault.Kind = ""
+				}
+			}
+		}
+		sc.Reqs = append(sc.Reqs, sp)
 	}
 	fitLimits(sc)
 	return sc
@@ -214,7 +237,16 @@ func runC13(t *testing.T, rc *RunCtx) *RunResult {
 		return res
 	}
 	for _, rs := range mr.reqs {
-		if v := oracleStream("C13", mr, rs, &res.Counters); v != nil {
+		var v *Violation
+		if rs.spec.Backend != "" {
+			v = oracleProxy(mr, rs, &res.Counters)
+			if v != nil {
+				v.Property = "C13"
+			}
+		} else {
+			v = oracleStream("C13", mr, rs, &res.Counters)
+		}
+		if v != nil {
 			res.Violation = v
 			return res
 		}
